@@ -63,16 +63,24 @@ func reps(g *oracle.G) map[string]graph.Graph {
 	for i := range idn {
 		idn[i] = i
 	}
+	// a DenseGraph whose edge bytes are 1, 2 or 255 (any non-zero byte is an edge; ChromaticIndex returns such arrays)
+	nonUnit := denseOf(g)
+	for i := range nonUnit.Edges {
+		if nonUnit.Edges[i] != 0 {
+			nonUnit.Edges[i] = []byte{1, 2, 255}[i%3]
+		}
+	}
 	return map[string]graph.Graph{
-		"dense":      denseOf(g),
-		"sparse":     sparseOf(g),
-		"cocomp":     graph.Complement(graph.Complement(denseOf(g))),
-		"comp-dense": graph.Complement(denseOf(g.Complement())),
-		"induced":    graph.InducedSubgraph(sparseOf(g), idn),
+		"dense-bytes": nonUnit,
+		"dense":       denseOf(g),
+		"sparse":      sparseOf(g),
+		"cocomp":      graph.Complement(graph.Complement(denseOf(g))),
+		"comp-dense":  graph.Complement(denseOf(g.Complement())),
+		"induced":     graph.InducedSubgraph(sparseOf(g), idn),
 	}
 }
 
-var repNames = []string{"dense", "sparse", "cocomp", "comp-dense", "induced"}
+var repNames = []string{"dense", "sparse", "cocomp", "comp-dense", "induced", "dense-bytes"}
 
 // wellFormed checks the observers of any graph.Graph against each other and returns the graph read through IsEdge.
 func wellFormed(what string, gr graph.Graph) (*oracle.G, error) {
